@@ -27,6 +27,29 @@ pub fn boundary_values() -> Vec<i64> {
     v
 }
 
+/// The boundary values plus runs of ones (`len` ones starting at bit `pos`: the values whose
+/// reduction to a width cuts a run in two at every possible place) and a fixed list of mixed
+/// constants (a linear congruential sequence written down once, not drawn at run time).
+pub fn pattern_values(tier: Tier) -> Vec<i64> {
+    let mut v = boundary_values();
+    let lens: Vec<u32> = (2..=63).collect();
+    for len in lens {
+        for pos in 0..=(64 - len) {
+            let ones = if len == 64 { u64::MAX } else { (1u64 << len) - 1 };
+            v.push((ones << pos) as i64);
+            v.push(!(ones << pos) as i64);
+        }
+    }
+    let mut x: u64 = 0x0123_4567_89AB_CDEF;
+    for _ in 0..tier.pick(64, 8192) {
+        v.push(x as i64);
+        x = x.wrapping_mul(6364136223846793005).wrapping_add(1442695040888963407);
+    }
+    v.sort();
+    v.dedup();
+    v
+}
+
 struct Case {
     name: String,
     sigs: Vec<Sig>,
@@ -117,9 +140,13 @@ fn cases() -> Vec<Case> {
 pub fn run(tier: Tier, seed: u64) -> i32 {
     let started = Instant::now();
     let deadline = Deadline::new(tier.wall_cap());
-    let values = boundary_values();
+    let all_values = pattern_values(tier);
+    // one program holds at most 400 values (the reference's budget is 1000 rows, every literal row stands twice)
+    let chunks: Vec<Vec<i64>> = all_values.chunks(400).map(|c| c.to_vec()).collect();
     let cases = cases();
-    let mut st = par_range("cases (widths 1..=64 x 2 signal orders, 16 double-bound column cases, 5 cases behind a bits(4,..) entry, 720 mixed-width cases) x 2 value paths", cases.len() as u64 * 2, &deadline, |idx, st| {
+    let mut st = par_range(&format!("cases (widths 1..=64 x 2 signal orders, 16 double-bound column cases, 5 cases behind a bits(4,..) entry, 720 mixed-width cases) x 2 value paths x {} blocks of at most 400 of the {} values", chunks.len(), all_values.len()), cases.len() as u64 * 2 * chunks.len() as u64, &deadline, |idx0, st| {
+        let values = &chunks[(idx0 / (cases.len() as u64 * 2)) as usize];
+        let idx = idx0 % (cases.len() as u64 * 2);
         let case = &cases[(idx / 2) as usize];
         let via_device = idx % 2 == 0;
         let header: Vec<String> = case.header.iter().map(|s| s.to_string()).collect();
@@ -301,14 +328,14 @@ pub fn run(tier: Tier, seed: u64) -> i32 {
         if let Some(m) = mism {
             let class = classify(&m);
             let summary = format!("case: {}\nvalues {}\nsignals: {}\nfirst difference at {m}", case.name, if via_device { "read back from device output R" } else { "as hex literals" }, case.sigs.iter().map(|s| s.show()).collect::<Vec<_>>().join(", "));
-            st.violation(&class, idx, summary, || dyn_replay(&text, &case.sigs, true, &script, &opts, ref_items_brief(&r), &obs, &m));
+            st.violation(&class, idx0, summary, || dyn_replay(&text, &case.sigs, true, &script, &opts, ref_items_brief(&r), &obs, &m));
         }
     });
     let meta = CheckMeta {
         id: "C07",
         tier,
         seed,
-        rule: "every width 1..=64 x {0,1,2^k,2^k-1,-2^k,-2^k-1 (k=0..63),MAX,MIN,0x55..,0xAA..} on the input path, expected path, bidirectional signal (both paths) and virtual signal, each value reaching the program both as a hex literal (non-negative) and read back from a 64-bit device output; plus every triple of different widths from {1,2,4,8,31,32,33,63,64} side by side with different values per column; evaluations counts (value, column) pairs; non-trivial = the value does not fit the narrowest width of the case (reduction is not the identity)".into(),
+        rule: "every width 1..=64 x {0,1,2^k,2^k-1,-2^k,-2^k-1 (k=0..63),MAX,MIN,0x55..,0xAA.., runs of ones of every length at every position and their complements, 64 (thorough: 8192) fixed mixed constants} on the input path, expected path, bidirectional signal (both paths) and virtual signal, each value reaching the program both as a hex literal (non-negative) and read back from a 64-bit device output; plus every triple of different widths from {1,2,4,8,31,32,33,63,64} side by side with different values per column; evaluations counts (value, column) pairs; non-trivial = the value does not fit the narrowest width of the case (reduction is not the identity)".into(),
         assumptions: vec![
             "oracle: v mod 2^bits as unsigned bit pattern (refsem::mask); a reduction of the form v & M is pinned exactly by the single-bit values, the others guard against non-mask implementations".into(),
             "values outside the boundary set are not enumerated (2^64 domain, see DESIGN section 10)".into(),
